@@ -8,6 +8,7 @@ from nbsym import engine as E
 
 ID = "C06"
 TITLE = "extract_read_variants keeps exactly the alignments of the sample's read groups that pass MAPQ / duplicate / QC-fail / supplementary filters, one row per read name with mates merged; cells are the aligned bases; reference mismatches always raise; DP/RCOUNT/RCALLS/SNVDP are the corresponding counts"
+TECHNIQUE = 'symbolic execution of extract_read_variants against pysam contract stubs; expected matrix as a z3 fold over all alignment variables; witnesses replayed on synthetic BAMs through real pysam'
 ENCODED = ["mchap.io.bam.extract_read_variants", "mchap.io.bam.encode_read_alleles", "mchap.io.bam.encode_read_distributions",
            "mchap.application.baseclass.program.encode_sample_reads", "mchap.encoding.character.transcode.as_allelic", "mchap.encoding.character.sequence.depth",
            "mchap.encoding.integer.transcode.as_probabilistic", "mchap.mset.unique_counts"]
